@@ -260,7 +260,14 @@ ExpectedRec(c, segs) ==
   IN IF c.enc = "none" THEN {pick(full(""))} ELSE {pick(full(sv)) : sv \in sidv}
 GetterClauses(e) == LET c == e.call  o == e.obs  idx == UIdx[FALSE][c.univ]
                         us == Unfold(c.search).res
-                        x == FindPaths(DefaultCfg, idx[DefaultCfg], c.search) IN
+                        x == FindPaths(DefaultCfg, idx[DefaultCfg], c.search)
+                        gus == {v \in us : GetterOf(v.type) # ""}
+                        ghits == UNION {AllHits(idx, u) : u \in gus}
+                        ggts == {u \in gus : HasGt(u)}
+                        gP == {GtPos(u) : u \in ggts}
+                        ga == IF ggts = {} THEN [pre |-> TRUE, res |-> ghits]
+                              ELSE IF Cardinality(gP) # 1 \/ ggts # gus THEN [pre |-> FALSE, res |-> {}]
+                              ELSE [pre |-> TRUE, res |-> LastOf(ghits, CHOOSE p \in gP : TRUE)] IN
   << C("noraise", o.raised = ""),
      C("find_is_model", ~x.pre \/ x.err # "" \/ ToSet(o.found) = x.res),
      C("one_per_found", Len(o.got) = Len(o.found)),
@@ -272,11 +279,11 @@ GetterClauses(e) == LET c == e.call  o == e.obs  idx == UIdx[FALSE][c.univ]
      \* 'sid' is an attribute of the record like any other (GetFromPaths, and GetFromAll where the type has a Getter)
      C("get_attr_sid", o.found = <<>> \/ (o.get_attr_sid[1] = JoinStr(o.found[1], "/") /\
                          (o.get_attr_sid[2] = JoinStr(o.found[1], "/") \/ GetterOf(ResolveFirst(o.found[1]).type) = ""))),
-     C("getfromall", x.sorted \/ x.err # "" \/
-          {JoinStr(r, "/") : r \in UNION {AllHits(idx, u) : u \in {v \in us : GetterOf(v.type) # ""}}} = ToSet(o.all_sids)),
-     C("getfromall_count", x.sorted \/ x.err # "" \/ Cardinality(ToSet(o.all_sids)) <= Len(o.all_sids)),
+     \* GetFromAll: the typed searches that have a Getter, all given together to that Getter ('>' is applied per group over all of them)
+     C("getfromall", x.err # "" \/ ~ga.pre \/ {JoinStr(r, "/") : r \in ga.res} = ToSet(o.all_sids)),
+     C("getfromall_count", x.err # "" \/ ~ga.pre \/ Cardinality(ToSet(o.all_sids)) = Len(o.all_sids)),
      \* where every unfolded type is served by the path Getter, GetFromAll yields the very same records (as a bag)
-     C("getfromall_records", x.sorted \/ x.err # "" \/ (\E u \in us : GetterOf(u.type) # "GetFromPaths") \/
+     C("getfromall_records", x.err # "" \/ ~x.pre \/ (\E u \in us : GetterOf(u.type) # "GetFromPaths") \/
           (Len(o.all_recs) = Len(o.got) /\
            \A r \in ToSet(o.all_recs) : Cardinality({i \in DOMAIN o.all_recs : o.all_recs[i] = r}) = Cardinality({i \in DOMAIN o.got : o.got[i] = r}))) >>
 
